@@ -352,6 +352,8 @@ def veq(a, b, st=None):
         return z3.And([veq(x, y, st) for x, y in zip(a.items, b.items)]) if a.items else z3.BoolVal(True)
     if isinstance(a, VPy) and isinstance(b, VPy):
         return z3.BoolVal(a.obj == b.obj)
+    if isinstance(a, VRawTerm) and isinstance(b, VRawTerm) and a.t.sort() == b.t.sort():
+        return a.t == b.t           # e.g. two dict maps: extensional Array equality
     if isinstance(a, VOpaque) and isinstance(b, VOpaque):
         return a.ident == b.ident
     if isinstance(a, VOpaque) and isinstance(b, VInt):       # identities kept in ghost integer logs
@@ -599,6 +601,8 @@ class SpecEval(object):
                     return VInt(0)
                 if isinstance(v, VRef) and isinstance(e.st.heap[v.ref], HDict) and e.st.heap[v.ref].ktype is None:
                     return VInt(0)
+                if isinstance(v, VDictVal) and v.keys is None:
+                    return VInt(0)
                 s, _ = as_seq(v, e.st)
                 return VInt(z3.Length(s))
             if f == 'implies':
@@ -743,7 +747,8 @@ class SpecEval(object):
             if isinstance(o, VOpt):
                 o = o.val
             if isinstance(o, VStr):
-                return str_method_pure(o, m, args, self.reg)
+                # an optional argument is read as its value (the clause guards it with isnone elsewhere)
+                return str_method_pure(o, m, [a.val if isinstance(a, VOpt) else a for a in args], self.reg)
             if isinstance(o, VDictVal) and m == 'has':
                 return VBool(dict_has(o, args[0]))
             if isinstance(o, VRef) and isinstance(e.st.heap[o.ref], HDict):
@@ -801,6 +806,10 @@ class VDictVal(Val):
 
     def __init__(self, ktype, vtype, keys, maps):
         self.ktype, self.vtype, self.keys, self.maps = ktype, vtype, keys, maps
+
+    @property
+    def mem(self):
+        return None if self.ktype is None or self.keys is None else memof(self.keys)
 
 
 def is_none(v):
@@ -1034,7 +1043,7 @@ def contains(container, item, st):
 def dict_has(h, k):
     if h.ktype is None:
         return z3.BoolVal(False)      # untyped {} literal: still empty
-    return z3.Contains(h.keys, z3.Unit(term_of(k)))
+    return z3.Select(memof(h.keys), term_of(k))
 
 
 def dict_get(h, k):
